@@ -123,7 +123,8 @@ Definition count_nonzero (l : list Z) : Z := zsum (map (fun w => if w =? 0 then 
 
 Definition sample_ok (whole : list contour) (comps : list (list contour)) (s : pt) : bool :=
   let ws := map (fun c => wind2 c s) comps in
-  (zsum ws =? wind2 whole s) && (count_nonzero ws <=? 1).
+  (zsum ws =? wind2 whole s) && (count_nonzero ws <=? 1) &&
+  forallb (fun w => (w =? 0) || (w =? 1)) ws.
 
 Definition decomp_check (whole : list contour) (comps : list (list contour)) (samples : list pt) : bool :=
   (zsum (map area2 comps) =? area2 whole) &&
